@@ -17,6 +17,8 @@ FILES = ["windpyutils/parallel/own_proc_pools.py", "windpyutils/buffers.py"]
 
 ANCHOR_PATTERNS = {
     "cond": r"while self\._sending_work or finished_cnt < self\._data_cnt",
+    "owed.test": r"^\s+if finished_cnt < self\._data_cnt:",
+    "owed.wait": r"send_thread\.progress_event\.wait\(\)",
     "feeder.init": r"self\.pool\._sending_work = True",
     "feeder.put": r"self\.pool\._work_queue\.put\(\(i, chunk\)\)",
     "feeder.cnt": r"self\.pool\._data_cnt \+= 1",
@@ -122,7 +124,8 @@ def build_plan(choice: Choice, tier: str, family: str):
     p["functor_pause"] = d(3, "functor.pause")      # 0 none, 1 yield, 2 defer on some items
     p["consumer_pause"] = d(3, "consumer.pause")    # 0 none, 1 yield between next(), 2 defer sometimes
     p["pipe_delay"] = d(2, "pipe.delay") == 1
-    p["granularity"] = "line" if d(5, "granularity") != 4 else "sync"
+    g = d(10 if thorough else 20, "granularity")
+    p["granularity"] = "sync" if g in (1, 2) else ("opcode" if g == 3 else "line")
     p["until_ready"] = 0
     p["begin_raises"] = None
     p["functor_raises"] = None
@@ -411,56 +414,40 @@ def is_work_item(e):
 
 
 def compute_probes(k, obs, plan):
-    """Rare-window probes from the anchor log."""
+    """Rare-window probes from the anchor log: entries are (step, task name, anchor)."""
     pr = {}
-    log = k.anchor_log
 
     def hit(n):
         pr[n] = pr.get(n, 0) + 1
 
-    # per call: did the consumer evaluate the loop condition before the feeder's first statement?
-    # anchor_log entries: (step, task name, anchor)
-    feeders_init = {}
-    for step, name, a in log:
-        if a == "feeder.init":
-            feeders_init[name] = step
-    cond_steps = [(step, name) for step, name, a in log if a == "cond"]
-    feeder_names = sorted({name for step, name, a in log if name.startswith("SendWorkThread")})
-    # the n-th SendWorkThread belongs to the n-th call
-    for t in k.tasks:
-        if t.role == "SendWorkThread":
-            init = feeders_init.get(t.name)
-            # first cond evaluation after this thread was spawned: approximate by order
-    # simple version: count cond evaluations that happen while some feeder thread exists and has not run init
-    spawned = {}
-    for t in k.tasks:
-        if t.role == "SendWorkThread":
-            spawned[t.name] = t
-    for step, name in cond_steps:
-        for fname, t in spawned.items():
-            init = feeders_init.get(fname)
-            if t.started is False or init is None or init > step:
-                # feeder exists?  only if its id was allocated before this step: approximated by name order
-                pass
-    last = {}
-    for step, name, a in log:
-        if a == "cond":
-            if last.get("feeder.put.pending"):
+    put_pending = False
+    feeder_started = set()
+    owed_wait_entered = False
+    for step, name, a in k.anchor_log:
+        if a in ("cond", "owed.test"):
+            if put_pending:
                 hit("cond-between-put-and-cnt")
-        if a == "feeder.put":
-            last["feeder.put.pending"] = True
-        if a == "feeder.cnt":
-            last["feeder.put.pending"] = False
-        if a == "worker.full_fallback":
+            if name == "main" and not feeder_started:
+                hit("cond-before-feeder-first-statement")
+        elif a == "feeder.put":
+            put_pending = True
+            feeder_started.add(name)
+        elif a == "feeder.cnt":
+            put_pending = False
+        elif a == "feeder.done":
+            feeder_started.discard(name)
+        elif a == "worker.full_fallback":
             hit("worker-full-fallback")
-        if a == "flow.pause":
+        elif a == "flow.pause":
             hit("flow-control-paused-feeder")
-        if a == "worker.retire":
+        elif a == "worker.retire":
             hit("worker-retired")
-        if a == "replace.start":
+        elif a == "replace.start":
             hit("replacement-started")
-        if a == "get.blocking":
+        elif a == "get.blocking":
             hit("blocking-get-entered")
+        elif a == "owed.wait":
+            hit("consumer-waited-for-feeder-progress")
     return pr
 
 
@@ -548,7 +535,7 @@ class PoolSpec:
         "sampling, not enumeration: a clean batch is evidence, not proof",
     ]
     PROBES = ["cond-between-put-and-cnt", "worker-full-fallback", "flow-control-paused-feeder",
-              "blocking-get-entered"]
+              "blocking-get-entered", "consumer-waited-for-feeder-progress", "worker-retired", "replacement-started"]
 
     def __init__(self, prop, family, rule, quick_runs, thorough_runs):
         self.PROPERTY = prop
